@@ -56,7 +56,22 @@ fn idmap_tuple(r: &mut Rng, ctx: &Ctx) -> Vec<String> {
 
 const NAMECH: &[u8] = b"ABCDEFGHIJKLMNOPQRSTUVWXYZabcdefghijklmnopqrstuvwxyz0123456789_";
 
-fn ascii(r: &mut Rng, len: usize) -> Vec<u8> {
+/// a string argument (`&str` / `String`): mostly name characters; now and then anything a Rust string
+/// may hold — an interior or trailing NUL, control characters, multi-byte UTF-8 (2-, 3- and 4-byte
+/// scalars), so that byte length ≠ character count
+fn ascii(r: &mut Rng, len: usize) -> Vec<u8> { text(r, len, false) }
+
+/// (`nul`: the string may contain NUL — not for RHCT ISA strings, where an interior NUL makes the node a
+/// different C string than announced whatever the crate does: DESIGN 16.6)
+fn text(r: &mut Rng, len: usize, nul: bool) -> Vec<u8> {
+    if len > 0 && r.below(8) == 0 {
+        let pool: [&str; 10] = [if nul { "\0" } else { "-" }, "\u{1}", "\t", " ", "\u{7f}", "\u{b5}", "\u{e9}", "\u{20ac}", "\u{1f600}", "_"];
+        let mut out: Vec<u8> = Vec::new();
+        while out.len() < len {
+            if r.below(3) == 0 { out.extend_from_slice(r.pick(&pool).as_bytes()); } else { out.push(*r.pick(NAMECH)); }
+        }
+        return out;
+    }
     (0..len).map(|_| *r.pick(NAMECH)).collect()
 }
 
@@ -203,7 +218,7 @@ pub fn gen_entry(r: &mut Rng, kind: &str, ctx: &mut Ctx, big: bool) -> Option<St
             let has_m = if ctx.iommus > 0 { r.below(2) } else { 0 };
             let maps: Vec<Vec<String>> = if has_m != 0 { (0..few(r)).map(|_| idmap_tuple(r, ctx)).collect() } else { vec![] };
             let len = r.below(20) as usize;
-            tok(kind, &[sc(r, 16), has_m], &[ascii(r, len)], &maps, &[])
+            tok(kind, &[sc(r, 16), has_m], &[text(r, len, true)], &maps, &[])
         }
         "pcirange" | "mmioep" => {
             if ctx.trans == 0 { return None; }
